@@ -336,7 +336,9 @@ func (c *Cluster) doExt(s Step, out *Outcome) bool {
 		if s.Op == "fedstate.delete" {
 			op = structs.FederationStateDelete
 		} else {
-			fs.UpdatedAt = time.Now().UTC().Round(0)
+			if !s.Flag { // (a writer that leaves the timestamp out: the stored record must not pick up a server's clock)
+				fs.UpdatedAt = time.Now().UTC().Round(0)
+			}
 			fs.PrimaryModifyIndex = uint64(s.N)
 			for _, n := range s.List {
 				fs.MeshGateways = append(fs.MeshGateways, structs.CheckServiceNode{
